@@ -11,7 +11,7 @@ package plonk
 // predicate holds (C02). Conjuncts are written from the protocol, cryptographic primitives are uninterpreted.
 //@ contract func Verify
 //@   props C02 C08
-//@   requires proof != nil && vk != nil && wfVK(vk) && wfProof(proof) && alloc(proof) != alloc(vk)
+//@   requires proof != nil && vk != nil && wfVK(vk) && wfProof(proof) && alloc(proof) != alloc(vk) && alloc(proof.Bsb22Commitments) != alloc(vk) && alloc(proof.Bsb22Commitments) != alloc(vk.Qcp)
 //@   nopanic[C08]
 //@   loop 1 invariant forall k int :: 0 <= k && k < i ==> inSubG1(proof.LRO[k])
 //@   loop 2 invariant forall k int :: 0 <= k && k < i ==> inSubG1(proof.H[k])
@@ -23,7 +23,9 @@ package plonk
 //@   ensures[C02] @folded-digests result == nil ==> digestsToFold[0] == linearizedPolynomialDigest && digestsToFold[1] == proof.LRO[0] && digestsToFold[2] == proof.LRO[1] && digestsToFold[3] == proof.LRO[2] && digestsToFold[4] == vk.S[0] && digestsToFold[5] == vk.S[1] && len(digestsToFold) == 6 + len(vk.Qcp)
 //@   ensures[C02] @fold result == nil ==> kzgFoldOK(digestsToFold, proof.BatchedProof.H, proof.BatchedProof.ClaimedValues, zeta, foldedProof, foldedDigest)
 //@   ensures[C02] @kzg-batch result == nil ==> kzgBatchOK(foldedDigest, proof.Z, foldedProof, proof.ZShiftedOpening, zeta, shiftedZeta, vk.Kzg) && shiftedZeta == fmul(zeta, vk.Generator)
-//@   ensures[C02] @public-data-bound result == nil ==> boundKey(fs, 0, "gamma", vk) && boundQcp(fs, 0, "gamma", vk, len(vk.Qcp)) && (forall k int :: 0 <= k && k < len(publicWitness) ==> titem(fs, 8 + len(vk.Qcp) + k) == bindItem("gamma", frItem(publicWitness[k])))
+//@   ensures[C02] @key-bound result == nil ==> boundKey(fs, 0, "gamma", vk)
+//@   ensures[C02] @qcp-bound result == nil ==> boundQcp(fs, 0, "gamma", vk, len(vk.Qcp))
+//@   ensures[C02] @public-inputs-bound result == nil ==> forall k int :: 0 <= k && k < len(publicWitness) ==> titem(fs, 8 + len(vk.Qcp) + k) == bindItem("gamma", frItem(publicWitness[k]))
 //@   ensures[C02] @algebraic-relation result == nil ==> proof.BatchedProof.ClaimedValues[0] == fneg(fadd(fsub(fmul(fmul(fmul(fmul(fadd(fadd(l, fmul(beta, s1)), gamma), fadd(fadd(r, fmul(beta, s2)), gamma)), fadd(o, gamma)), alpha), zu), fmul(fmul(lagrangeZero, alpha), alpha)), pi))
 //@   ensures[C02] @claimed-values-used result == nil ==> l == proof.BatchedProof.ClaimedValues[1] && r == proof.BatchedProof.ClaimedValues[2] && o == proof.BatchedProof.ClaimedValues[3] && s1 == proof.BatchedProof.ClaimedValues[4] && s2 == proof.BatchedProof.ClaimedValues[5] && zu == proof.ZShiftedOpening.ClaimedValue
 
@@ -37,6 +39,7 @@ package plonk
 //@   props C02
 //@   requires fs != nil && vk != nil
 //@   nopanic
+//@   assigns *fs, titem(fs), tlen(fs, 0)
 //@   loop 1 invariant @len tlen(fs, 0) == old(tlen(fs, 0)) + 8 + i
 //@   loop 1 invariant @key boundKey(fs, old(tlen(fs, 0)), challenge, vk)
 //@   loop 1 invariant @qcp boundQcp(fs, old(tlen(fs, 0)), challenge, vk, i)
